@@ -82,6 +82,11 @@ CHECKS = {
         text="TLA+ model of the goroutine protocol of Validate (main, worker, consumer goroutine, the five channels, environment cancel; one action per channel operation) swept in one TLC run over the product of its parameters (0..3 files x every damage pattern, dir wounds, channel capacity 1..2 with more wounds than capacity, consumers guardian/printer/failing-after-n, cancellation): no deadlock, <>returned and <>[]all goroutines done under weak fairness, nil from fail-fast validation => nothing damaged. The real Validate runs with hooks (-tags verif) under damage patterns (incl. > 1024 wounds with a consumer slower than the worker, damage only in the last file), four consumers, cancellation instants chosen through the hooks (before start, when main is about to dispatch file i, when the worker finished file i, after the last dispatch, asynchronous), seeded jitter and GOMAXPROCS 1..16: TLC checks that it returns, leaves no goroutine, and returns nil only for a matching directory; per-goroutine logs of free runs are validated against the protocol model (each role's log in program order under any interleaving, silent unlogged actions).",
         note="termination observed with a 10 s deadline per run; goroutine leaks through runtime.NumGoroutine; per-file wounds abstracted to one marker in the model.",
         technique="TLA+ model checking incl. liveness (TLC) + trace validation of per-goroutine logs and outcomes of the real validator against the TLA+ protocol"),
+    "C06": dict(
+        level="model_checking", ref="DESIGN.md §4 C06",
+        text="TLA+ model of validation + archive healing (validator pass dirs -> symlinks -> files, FIFO wound channel, the healer's wound loop and heal goroutine, all interleaved) over an abstract POSIX tree with ENOENT/ENOTDIR resolution and MkdirAll/RemoveAll semantics, model-checked for a tree with nested directories, two files and a symlink over EVERY well-formed damaged disk (426) and every interleaving: Validate returns nil and the disk equals the signed build. The real Validate with an archive healer runs with hooks under seeded jitter and GOMAXPROCS 1..16 on all 426 disks of the model's tree and on generated builds with damage sequences plus kind swaps that hide whole subtrees, missing / empty directories and already valid directories; TLC checks: returns, no error, entry-by-entry equality with the signed build, fail-fast validation passes afterwards, a valid directory is left untouched (inode, mtime, size, mode), no goroutine left.",
+        note="archive = zip written by the harness; real interleavings sampled by jitter (all interleavings in the model only); symlinked ancestors abstracted in the model.",
+        technique="TLA+ model checking (TLC) + real heals of the model's own universe and of generated damage validated against the TLA+ property"),
 }
 
 NOT_YET = "check not built yet in this round (planned: DESIGN.md §4); not a claim that the technique cannot apply"
